@@ -15,7 +15,7 @@ LEN_PADS = ["0", " ", "0", " ", "0", "-", "+", "x", "1", "_"]
 GOOD_LEN_PADS = ("0", " ")
 FWF_NAMES = ["A", "B", "C", "D", "E", "F"]
 FWF_AL = ["a", "Z", "0", "7", " ", "-", "+", "é", "."]
-FILLERS = [" ", " ", " ", "0", ".", "*", "ab", ""]
+FILLERS = [" ", " ", " ", "0", ".", "*", "ab", "<>", ""]
 RULES = {"isdigit": "column_value.isdigit()", "notblank": "column_value.strip() != ''"}
 
 
@@ -71,7 +71,7 @@ def ref_row_valid(row, fmt):
 
 
 def layout_clean(cols, filler):
-    if len(filler) != 1 or not cols or len({c["name"] for c in cols}) != len(cols):
+    if len(filler) < 1 or not cols or len({c["name"] for c in cols}) != len(cols):
         return False
     if any(c["till"] != c["offset"] + c["size"] for c in cols):
         return False
@@ -299,7 +299,7 @@ class C16(Prop):
         for _ in range(700 if quick else 15000):
             clean = rng.random() < 0.7
             cols = self._layout(rng, clean)
-            filler = rng.choice(FILLERS if not clean else FILLERS[:6])
+            filler = rng.choice(FILLERS if not clean else FILLERS[:8])
             inp = {"rec": self._record(rng, cols), "cols": cols, "filler": filler}
             st = rng.choice(["fwf_rt", "fwf_rt", "fwf_gen"])
             out.append({"stream": st, "tag": "rnd:%s:%s" % (st, "clean" if clean else "dirty"), "input": inp})
@@ -482,9 +482,13 @@ class C16(Prop):
                 if c["name"] in rec:
                     t = str(rec[c["name"]])
                     want[c["name"]] = (t.zfill(c["size"]) if c["type"] == "int" else t.ljust(c["size"]))[:c["size"]]
-                else:
+                elif len(filler) == 1:
                     want[c["name"]] = filler * c["size"]
             got = L.uncanon(obs["ok"])
+            if len(filler) > 1 and isinstance(got, dict):
+                # a filler of several characters: the columns the record has still sit at their offsets; what an absent
+                # column reads (some rotation of the filler) is left open
+                got = {k: v for k, v in got.items() if k in want}
             if got != want:
                 bad = [k for k in want if not isinstance(got, dict) or got.get(k) != want[k]]
                 return "columns %s parse back to %r, expected %r" % (bad, got, want)
@@ -507,15 +511,20 @@ class C16(Prop):
                 return "%d accepted + %d rejected rows for %d non-empty lines" % (len(acc), len(rej), len(rows))
             if i["orig"] and all(isinstance(a, dict) and i["orig"] in a for a in acc):
                 acc_rows = [a[i["orig"]] for a in acc]
-                # each line exactly once, order kept inside both lists
-                pa = pr = 0
-                for l in rows:
-                    if pa < len(acc_rows) and acc_rows[pa] == l:
-                        pa += 1
-                    elif pr < len(rej_rows) and rej_rows[pr] == l:
-                        pr += 1
-                    else:
+                # each line exactly once, order kept inside both lists: the lines are an interleaving of the two
+                # lists (equal lines may sit in either list, so every split is followed, not the greedy one)
+                states = {0}
+                for k, l in enumerate(rows):
+                    nxt = set()
+                    for pa in states:
+                        pr = k - pa
+                        if pa < len(acc_rows) and acc_rows[pa] == l:
+                            nxt.add(pa + 1)
+                        if pr < len(rej_rows) and rej_rows[pr] == l:
+                            nxt.add(pa)
+                    if not nxt:
                         return "line %r is neither the next accepted nor the next rejected row (accepted %r, rejected %r)" % (l, acc_rows, rej_rows)
+                    states = nxt
             else:
                 left = list(rows)
                 for r in rej_rows:
